@@ -4,6 +4,8 @@ package streams
 
 import (
 	"bytes"
+	"crypto/sha1"
+	"encoding/base64"
 	"fmt"
 	"io"
 	"log"
@@ -43,6 +45,10 @@ import (
 //     logE   H1 + `log` into a directory that does not exist (the OnStartup callback fails)
 //     busy3  one site on p3 (port in use)          leak13  sites on p1 and p3     leak123  sites on p1, p2, p3
 //     ty-<w> A1 + a mistyped directive <w> (proxi basicaut rewrit gzi loggg tlss redri zzz): rejected by the parser
+//     Pa1 Pb1  site on p1 with `basicauth /secret alice htpasswd=F` and `basicauth /api bob htpasswd=F`; before the attempt the
+//              htpasswd file F (one path per case) is written in version a resp. b (different passwords)        Qa1  only the bob rule
+//     Pm1 Pm2 Pm3  the same configuration as Pa1 with F MALFORMED (a line without ':', an empty user, an undecodable {SHA} hash —
+//              each between bob's line and alice's): the parse fails, the load is rejected        Pn1  F is missing
 //     O1     ORDER-SENSITIVE site on p1: rewrite, gzip{ext}, basicauth, redir, status, proxy whose observable behaviour depends
 //            on the documented execution order of the directives        OB12   O on p1 and a plain site on p2
 //
@@ -50,7 +56,9 @@ import (
 //     res    ok | err | timeout        dv  0 iff casket.ValidDirectives("http") is what it was when the process started
 //     probe  - (refused) | hang | e:<class> | <marker>/<battery>   marker = body of GET /, battery = status of unauthenticated
 //            GETs of /secret/file.txt /pub /api/x /secret/moved /teapot, then gz|id = is /pubz (Accept-Encoding: gzip) compressed;
-//            a plain site answers 404.404.404.404.404.id, the order-sensitive one 401.401.401.401.418.gz in a fresh process
+//            a plain site answers 404.404.404.404.404.id, the order-sensitive one 401.401.401.401.418.gz in a fresh process;
+//            when any of them asks for credentials a third part follows: <which of alice's passwords (a, b, m = the one in
+//            version a, b, malformed of F) open /secret/file.txt>.<which of bob's open /api/x>, - for none
 
 var c08 struct {
 	mu        sync.Mutex
@@ -64,6 +72,8 @@ var c08 struct {
 	backend   *http.Server
 	backendLn net.Listener
 	dirs0     []string
+	htFile    string // the htpasswd file of the case being evaluated
+	caseNo    int
 	timeouts  int
 }
 
@@ -115,7 +125,6 @@ func c08Setup() error {
 		c08.logbuf.cond = sync.NewCond(&c08.logbuf.mu)
 		casket.Quiet = true
 		casket.TrapSignals()
-		c08.portCur = 20000 + (os.Getpid()*37)%9000
 		// the SIGUSR1 handler reloads through the loader that loaded the Casketfile
 		casket.RegisterCasketfileLoader("verifc08", casket.LoaderFunc(func(string) (casket.Input, error) {
 			c08.mu.Lock()
@@ -154,7 +163,7 @@ func c08Setup() error {
 	os.MkdirAll(filepath.Join(dir, "O", "secret"), 0o755)
 	os.WriteFile(filepath.Join(dir, "O", "secret", "file.txt"), []byte("classified"), 0o644)
 	os.WriteFile(filepath.Join(dir, "O", "plain.txt"), []byte(strings.Repeat("plain text that compresses well. ", 100)), 0o644)
-	c08.p3 = c08FreePort()
+	c08.p3 = c08BusyPort.reserve(false) // held (locked and bound) for the whole run
 	ln, err := net.Listen("tcp", fmt.Sprintf("127.0.0.1:%d", c08.p3))
 	if err != nil {
 		return err
@@ -170,24 +179,14 @@ func c08Teardown() {
 		c08.busy.Close()
 		c08.busy = nil
 	}
+	c08BusyPort.release()
+	c08Ports.release()
 	os.RemoveAll(c08.dir)
 }
 
-// a port below the ephemeral range that is free right now
-func c08FreePort() int {
-	for i := 0; i < 20000; i++ {
-		c08.portCur++
-		if c08.portCur >= 32000 {
-			c08.portCur = 20000
-		}
-		ln, err := net.Listen("tcp", fmt.Sprintf("127.0.0.1:%d", c08.portCur))
-		if err == nil {
-			ln.Close()
-			return c08.portCur
-		}
-	}
-	panic("no free port")
-}
+var c08Ports, c08BusyPort verifPorts
+
+func c08FreePort() int { return c08Ports.reserve(false) }
 
 func c08Config(kind string, p [4]int) (string, bool) {
 	site := func(pi int, marker string, extra ...string) string {
@@ -218,7 +217,13 @@ func c08Config(kind string, p [4]int) (string, bool) {
 		"rewrite /pubz /plain.txt",
 		"rewrite /pub /secret/file.txt",
 	}
+	ruleA := "basicauth /secret alice htpasswd=" + filepath.Base(c08.htFile) // relative to the site root
+	ruleB := "basicauth /api bob htpasswd=" + filepath.Base(c08.htFile)
 	switch kind {
+	case "Pa1", "Pb1", "Pm1", "Pm2", "Pm3", "Pn1":
+		return site(1, "O", ruleA, ruleB), true
+	case "Qa1":
+		return site(1, "O", ruleB), true
 	case "O1":
 		return site(1, "O", ordered...), true
 	case "OB12":
@@ -376,7 +381,70 @@ func c08ProbeOnce(port int, patience time.Duration) string {
 	} else {
 		out += ".id"
 	}
-	return out
+	if !strings.Contains(out, "401") {
+		return out
+	}
+	// the site asks for credentials: which passwords does it accept?
+	creds := func(user, path string) string {
+		acc := ""
+		for i, letter := range []string{"a", "b", "m"} {
+			req, _ := http.NewRequest("GET", fmt.Sprintf("http://127.0.0.1:%d%s", port, path), nil)
+			req.SetBasicAuth(user, c08Pw[user][i])
+			resp, err := cl.Do(req)
+			if err != nil {
+				return "e"
+			}
+			io.Copy(io.Discard, io.LimitReader(resp.Body, 1<<16))
+			resp.Body.Close()
+			if resp.StatusCode != 401 {
+				acc += letter
+			}
+		}
+		if acc == "" {
+			return "-"
+		}
+		return acc
+	}
+	return out + "/" + creds("alice", "/secret/file.txt") + "." + creds("bob", "/api/x")
+}
+
+func c08Sha(pw string) string {
+	h := sha1.Sum([]byte(pw))
+	return "{SHA}" + base64.StdEncoding.EncodeToString(h[:])
+}
+
+// passwords of alice / bob in the versions a, b and m(alformed) of the htpasswd file
+var c08Pw = map[string][3]string{"alice": {"A-one", "A-two", "A-three"}, "bob": {"B-one", "B-two", "B-three"}}
+
+// write the htpasswd file of the case in the version the configuration kind stands for (every version has another size, so
+// that the modification stamp casket keeps is sure to differ)
+func c08WriteHtpasswd(kind string) {
+	ver, bad := -1, ""
+	switch kind {
+	case "Pa1", "Qa1":
+		ver = 0
+	case "Pb1":
+		ver = 1
+	case "Pm1":
+		ver, bad = 2, "this line has no colon"
+	case "Pm2":
+		ver, bad = 2, ":emptyuser"
+	case "Pm3":
+		ver, bad = 2, "carol:{SHA}!!!not-base64!!!"
+	case "Pn1": // the file is missing
+		os.Remove(c08.htFile)
+		return
+	default:
+		return
+	}
+	var b strings.Builder
+	b.WriteString("# version " + strings.Repeat("#", 3*len(kind)+ver*7) + kind + "\n")
+	b.WriteString("bob:" + c08Sha(c08Pw["bob"][ver]) + "\n")
+	if bad != "" {
+		b.WriteString(bad + "\n")
+	}
+	b.WriteString("alice:" + c08Sha(c08Pw["alice"][ver]) + "\n")
+	os.WriteFile(c08.htFile, []byte(b.String()), 0o644)
 }
 
 // 0 iff the process-wide directive list is what it was when the process started
@@ -405,7 +473,11 @@ func c08Eval(f []string) (string, []string) {
 		copy(cur, c08.dirs0)
 	}
 	c08.logbuf.reset()
+	c08.caseNo++
+	c08.htFile = filepath.Join(c08.dir, "O", fmt.Sprintf("htpasswd-%d", c08.caseNo)) // a path no earlier case has used
+	defer os.Remove(c08.htFile)
 	var p [4]int
+	c08Ports.release()
 	p[1], p[2], p[3] = c08FreePort(), c08FreePort(), c08.p3
 	tags := map[string]bool{}
 	var steps []string
@@ -419,6 +491,7 @@ func c08Eval(f []string) (string, []string) {
 				bad = true
 				break
 			}
+			c08WriteHtpasswd(opS[2:])
 			in := casket.CasketfileInput{ServerTypeName: "http", Filepath: "verif-" + opS[2:], Contents: []byte(text)}
 			tags["kind-"+opS[2:]] = true
 			switch {
@@ -492,7 +565,7 @@ func c08Eval(f []string) (string, []string) {
 
 var c08Typos = []string{"proxi", "basicaut", "rewrit", "gzi", "loggg", "tlss", "redri", "zzz"}
 
-var c08Kinds = []string{"O1", "OB12", "A1", "B12", "C2", "H1", "HH12", "syn", "unk", "argE", "argL", "tlsM", "imp", "logE", "busy3", "leak13", "leak123"}
+var c08Kinds = []string{"Pa1", "Pb1", "Qa1", "Pm1", "Pm2", "Pm3", "Pn1", "O1", "OB12", "A1", "B12", "C2", "H1", "HH12", "syn", "unk", "argE", "argL", "tlsM", "imp", "logE", "busy3", "leak13", "leak123"}
 
 func c08Gen(g *hx.Gen) {
 	var alpha []string
@@ -502,17 +575,26 @@ func c08Gen(g *hx.Gen) {
 	for _, w := range c08Typos {
 		alpha = append(alpha, "L:ty-"+w)
 	}
-	alpha = append(alpha, "V:H1", "V:argL", "V:syn", "V:ty-proxi", "V:ty-basicaut", "X")
+	alpha = append(alpha, "V:H1", "V:argL", "V:syn", "V:ty-proxi", "V:ty-basicaut", "V:Pm1", "V:Pm3", "X")
 	maxLen := 2
 	if g.Thorough() {
 		maxLen = 3
 	}
+	core := []string{"L:A1", "L:B12", "L:H1", "L:O1", "L:Pa1", "L:Pm1", "L:Pn1", "L:syn", "L:argL", "L:logE", "L:leak13",
+		"L:ty-proxi", "V:H1", "V:Pm1", "X"}
 	// the property's shape: any attempts, then a valid configuration — a plain one and an ORDER-SENSITIVE one, whose
 	// behaviour must be that of a fresh process whatever was attempted before
-	finals := []string{"L:B12", "L:O1"}
+	finals0 := []string{"L:B12", "L:O1"}
+	finalsHt := []string{"L:Pa1", "L:Qa1"} // after attempts that touched the htpasswd file: the file repaired
 	var rec func(prefix []string, n int)
 	rec = func(prefix []string, n int) {
 		if len(prefix) > 0 {
+			finals := finals0
+			for _, o := range prefix {
+				if strings.Contains(o, ":P") || strings.Contains(o, ":Q") {
+					finals = finalsHt
+				}
+			}
 			if len(prefix) < maxLen || !g.Thorough() {
 				for _, f := range finals {
 					g.Case(append(append([]string(nil), prefix...), f)...)
@@ -524,7 +606,11 @@ func c08Gen(g *hx.Gen) {
 		if n == 0 {
 			return
 		}
-		for _, a := range alpha {
+		next := alpha
+		if len(prefix) == 2 {
+			next = core // the third attempt of the thorough tier comes from the core of the alphabet
+		}
+		for _, a := range next {
 			rec(append(append([]string(nil), prefix...), a), n-1)
 		}
 	}
@@ -533,7 +619,7 @@ func c08Gen(g *hx.Gen) {
 	if g.Thorough() {
 		N = 6000
 	}
-	valid := []string{"A1", "B12", "C2", "H1", "HH12", "O1", "OB12"}
+	valid := []string{"A1", "B12", "C2", "H1", "HH12", "O1", "OB12", "Pa1", "Pb1", "Qa1"}
 	for it := 0; it < N; it++ {
 		L := 2 + g.Rng.Intn(6)
 		var ops []string
